@@ -515,7 +515,7 @@ impl Allocator for Arena {
     let final_offset = match pos {
       ArenaPosition::Start(offset) => offset.max(data_offset).min(cap),
       ArenaPosition::Current(offset) => {
-        let offset = allocated as i64 + offset;
+        let offset = (allocated as i64).saturating_add(offset);
         #[allow(clippy::comparison_chain)]
         if offset > 0 {
           if offset >= (cap as i64) {
